@@ -17,7 +17,7 @@ import re
 import shutil
 
 from .. import evidence, tlc
-from ..common import MachineryError, Timer, guarded, log, pmap, scratch_dir, workdir
+from ..common import per_process, MachineryError, Timer, guarded, log, pmap, scratch_dir, workdir
 from ..findings import Reporter
 from ..tlaval import parse, read_dump
 
@@ -202,11 +202,7 @@ def observe_state(arg):
          "hard": sum(t.hard_to_maintain for t in cb.totals.values()), "unm": sum(t.unmaintainable for t in cb.totals.values()),
          "findings": [u.measurement.value for u in rep.all_report_units_sorted_by_length_asc(30)], "root_profile": list(cb.tree["./"].profile)}
     if e2e:
-        if _SCRATCH is None:
-            _SCRATCH = scratch_dir("c02")
-            import atexit
-
-            atexit.register(shutil.rmtree, str(_SCRATCH), True)
+        _SCRATCH = per_process("c02-scratch", lambda: scratch_dir("c02"))  # under the run's scratch root
         os.chdir(_SCRATCH)
         for name, text in render_files(funcs).items():
             with open(name, "w") as f:
